@@ -136,9 +136,12 @@ def oracle_unchanged_rebuild(case, obs, stats):
                 continue
             if obs[i][0] != obs[i - 1][0]:
                 fails.append({"oracle": "unchanged rebuild returns an equal value", "step": i})
+            # an output may be rewritten only by a call that legitimately ran again (it raised last time,
+            # or a call below it raised or was rejected: such records are never served)
+            rerun_targets = {l.split(" ")[2] for l in log_of(obs[i]) if l.startswith("invoke ") and len(l.split(" ")) > 2}
             for l in tree_of(obs[i]):
                 p, kind, content, mt, cls = split_line(l)
-                if kind == "F" and cls != "same":
+                if kind == "F" and cls != "same" and not any(l2.startswith("invoke ") and (" " + p + " ") in (l2 + " ") for l2 in log_of(obs[i])):
                     fails.append({"oracle": "second unchanged rebuild rewrites no output", "step": i, "line": l})
             # bodies that ran in the second unchanged rebuild must have run (and raised or been
             # re-run because of a raise below them) in the one before
